@@ -144,10 +144,44 @@ def temp_records(cfg, log, raws, decimals, rng, recs, meta, loop):
                              "w1": prev[1], "w2": words["sync"]})
                 meta.append((name, {}))
             prev = (k, words["sync"])
+    # a history on the SAME accessor objects with notifying updates only (the way a live connection changes the
+    # block): a temperature is read, the units byte changes through an update that starts exactly at that byte
+    # (what a device write or a partial update of TempUnits looks like), then the temperature is read, written
+    # back and read again
+    for path, st, cap in (("sync", ss, cs), ("async", sa, ca)):
+        acc, u = st.accessors[tag], st.accessors["TempUnits"]
+        st.set_status_block(bytes(1024))
+        cur = "F" if u.value == "F" else "C"
+        for step in range(6):
+            to = "C" if cur == "F" else "F"
+            raw = rng.choice([540, 684, 702, 333, 601, 689])
+            st.replace_status_block_segment(acc.pos, raw.to_bytes(acc.length, "big"))
+            _ = acc.value
+            idx = u.items.index(to)
+            w = int.from_bytes(st.status_block[u.pos:u.pos + u.length], "big")
+            w = idx if u.bitpos is None else (w & ~(u.bitmask << u.bitpos)) | (idx << u.bitpos)
+            st.replace_status_block_segment(u.pos, w.to_bytes(u.length, "big"))
+            cur = to
+            shown = acc.value
+            n, d = _frac(shown)
+            recs.append({"kind": "read", "raw": raw, "unit": cur, "num": n, "den": d})
+            meta.append((name, {"shown": shown, "history": "after-unit-switch"}))
+            cap.calls.clear()
+            try:
+                if path == "sync":
+                    acc.value = shown
+                else:
+                    loop.run_until_complete(acc.async_set_value(shown))
+                outcome = "write" if len(cap.calls) == 1 else "nocall"
+                word = int(cap.calls[0][2]) if cap.calls else -1
+            except Exception as e:  # noqa
+                outcome, word = f"raised:{type(e).__name__}", -1
+            recs.append({"kind": "write", "raw": raw, "unit": cur, "path": path, "outcome": outcome, "word": word})
+            meta.append((name, {"shown": shown, "history": "after-unit-switch"}))
     return 1
 
 
-def heater_records(cfg, log, rng, recs, meta):
+def heater_records(cfg, log, rng, recs, meta, loop=None, hraws=()):
     from geckolib.automation.heater import GeckoWaterHeater
     st, cap = build(cfg, log, False)
     acc = st.accessors
@@ -212,6 +246,35 @@ def heater_records(cfg, log, rng, recs, meta):
                     recs.append({"kind": "op", "heat": f(flags[0][1]), "cool": f(flags[1][1]),
                                  "cmp": (cur > real) - (cur < real), "got": got})
                     meta.append((name, {"unit": unit, "cur": cur, "real": real}))
+    # writes through the heater's own setters (the user-facing API): what the heater presents as its target is
+    # written back through set_target_temperature / async_set_target_temperature and must emit the same raw word
+    if loop is None:
+        return 1
+    rigs = []
+    for path, async_ in (("sync", False), ("async", True)):
+        st2, cap2 = build(cfg, log, async_)
+        st2.set_status_block(bytes(1024))
+        rigs.append((path, st2, cap2, GeckoWaterHeater(_StubFacade(_StubSpa(st2)))))
+    for unit in ("C", "F"):
+        for path, st2, cap2, h2 in rigs:
+            _set_unit(st2, unit)
+            sp = st2.accessors["SetpointG"]
+            for raw in hraws:
+                _set_field(st2, sp, raw)
+                shown = h2.target_temperature
+                _set_field(st2, sp, (raw * 7 + 13) % 65536)
+                cap2.calls.clear()
+                try:
+                    if path == "sync":
+                        h2.set_target_temperature(shown)
+                    else:
+                        loop.run_until_complete(h2.async_set_target_temperature(shown))
+                    outcome = "write" if len(cap2.calls) == 1 else "nocall"
+                    word = int(cap2.calls[0][2]) if cap2.calls else -1
+                except Exception as e:  # noqa
+                    outcome, word = f"raised:{type(e).__name__}", -1
+                recs.append({"kind": "write", "raw": raw, "unit": unit, "path": f"heater-{path}", "outcome": outcome, "word": word})
+                meta.append((name, {"shown": shown, "via": "heater setter"}))
     return 1
 
 
@@ -246,7 +309,8 @@ def run(ctx):
             if got:
                 n_temp += 1
                 first = False
-            n_heat += heater_records(c, l, rng, recs, meta)
+            n_heat += heater_records(c, l, rng, recs, meta, loop=loop,
+                                     hraws=sorted({270, 540, 541, 679, 684, 702, 720, *[rng.randrange(250, 760) for _ in range(40)]}))
     # heater ladder on every pair (cheap) in the thorough tier
     if not ctx.quick:
         for plat, c, l in ps:
